@@ -11,6 +11,10 @@ use std::time::Instant;
 static GLOBAL: alloc::Counting = alloc::Counting;
 
 const VERIF: &str = "/verif";
+/// where a run writes (evidence, replays/found, scratch): /verif, or VERIF_OUT for trial runs against a patched copy
+fn out_root() -> std::path::PathBuf {
+    std::env::var_os("VERIF_OUT").map(std::path::PathBuf::from).unwrap_or_else(|| std::path::PathBuf::from(VERIF))
+}
 
 fn find_prop(id: &str) -> PropMeta {
     checks::registry()
@@ -216,7 +220,7 @@ fn parent(id: &str, tier: Tier) {
         .and_then(|s| s.parse().ok())
         .unwrap_or_else(|| std::thread::available_parallelism().map(|n| n.get() as u32).unwrap_or(8));
     let exe = std::env::current_exe().unwrap();
-    let tmp = Path::new(VERIF).join("harness/target/run").join(format!("{}-{}", id, std::process::id()));
+    let tmp = out_root().join("harness/target/run").join(format!("{}-{}", id, std::process::id()));
     let _ = std::fs::create_dir_all(&tmp);
     let mut kids = Vec::new();
     for s in 0..nshards {
@@ -265,7 +269,7 @@ fn parent(id: &str, tier: Tier) {
                         // a thread blocked in real time (e.g. a lock held across an await): not a verdict, but keep the case
                         let mut where_ = String::new();
                         if let Some(j) = &jcase {
-                            let dir = Path::new(VERIF).join("replays/found");
+                            let dir = out_root().join("replays/found");
                             let _ = std::fs::create_dir_all(&dir);
                             let path = dir.join(format!("{}-stuck-{:016x}.json", id, hash_of(&serde_json::to_string(j).unwrap_or_default())));
                             let body = json!({"property": id, "variant": j["variant"], "signature": "stuck-in-real-time", "detail": "the worker made no progress in wall-clock time while executing this case (blocked thread)", "case": j["case"]});
@@ -377,7 +381,7 @@ fn parent(id: &str, tier: Tier) {
         "known_findings_reproduced": known_lines.keys().collect::<Vec<_>>(),
         "inconclusive": rep.inconclusive,
     });
-    let evdir = Path::new(VERIF).join("evidence");
+    let evdir = out_root().join("evidence");
     let _ = std::fs::create_dir_all(&evdir);
     std::fs::write(evdir.join(format!("{}.json", id)), serde_json::to_vec_pretty(&ev).unwrap()).expect("write evidence");
 
@@ -394,7 +398,7 @@ fn parent(id: &str, tier: Tier) {
         seed
     );
     if !new_violations.is_empty() {
-        let dir = Path::new(VERIF).join("replays/found");
+        let dir = out_root().join("replays/found");
         let _ = std::fs::create_dir_all(&dir);
         // one line per distinct signature
         let mut seen = std::collections::HashSet::new();
